@@ -988,6 +988,7 @@ class DetSession:
         self.tracing = True
         hang = False
         steps = 0
+        stats = {}
         try:
             while True:
                 steps += 1
@@ -1000,6 +1001,14 @@ class DetSession:
                 for t in self.tasks:
                     if self._thread_enabled(t):
                         en.append("T%d" % t.index)
+                    elif t.park in ("start", "atcheck"):
+                        stats["thread-blocked-at-cap"] = stats.get("thread-blocked-at-cap", 0) + 1
+                if rd.park == "rdisp" and not self._reader_enabled(rd, more):
+                    stats["reader-spins-for-registration"] = stats.get("reader-spins-for-registration", 0) + 1
+                if rd.park == "rrecv" and not self._reader_enabled(rd, more):
+                    stats["reader-waits-for-response"] = stats.get("reader-waits-for-response", 0) + 1
+                if rd.park == "rsend":
+                    stats["reader-sync-request"] = stats.get("reader-sync-request", 0) + 1
                 if rd.park == "crashed":
                     break
                 if rd.park != "idle" and self._reader_enabled(rd, more):
@@ -1027,7 +1036,7 @@ class DetSession:
                     self._resume(self.tasks[int(pick[1:])])
         finally:
             self.tracing = False
-        return {"results": results, "hang": hang, "exc": rd.exc,
+        return {"results": results, "hang": hang, "exc": rd.exc, "stats": stats,
                 "thread_exc": [t.exc for t in self.tasks if t.exc is not None]}
 
     def _choose(self, en, rng, bias):
